@@ -367,6 +367,8 @@ def client_snapshot():
     """content of ~/.sse/client as {relative path: bytes | decoded service_meta | None for directories}"""
     root = os.path.join(world.sse_dir(), "client")
     out = {}
+    if not os.path.isdir(root):
+        return {"<client directory missing>": None}
     for d, dirs, files in os.walk(root):
         dirs.sort()
         for f in sorted(files):
